@@ -184,6 +184,7 @@ class SimDisk:
         self.fds = {}
         self._fd = self.FD_BASE
         self.nops = 0
+        self.unsupported = None
         self.reads_mixed = {}  # imp -> True if it ever read a mixed inode
         self.read_any = {}
 
@@ -586,6 +587,30 @@ def install_patches(disk):
             return None
         return real["kill"](pid, sig)
 
+    # advisory locks on simulated files are not modelled: a run that uses them is not judged by
+    # this layer (layers a, c and d, which use the real file system, still judge the tree)
+    try:
+        import fcntl
+
+        real["flock"], real["lockf"] = fcntl.flock, fcntl.lockf
+
+        def p_flock(fd, op):
+            f = fd if isinstance(fd, int) else getattr(fd, "fileno", lambda: -1)()
+            if f in disk.fds:
+                disk.unsupported = "fcntl.flock"
+                return None
+            return real["flock"](fd, op)
+
+        def p_lockf(fd, cmd, *a):
+            f = fd if isinstance(fd, int) else getattr(fd, "fileno", lambda: -1)()
+            if f in disk.fds:
+                disk.unsupported = "fcntl.lockf"
+                return None
+            return real["lockf"](fd, cmd, *a)
+
+        fcntl.flock, fcntl.lockf = p_flock, p_lockf
+    except ImportError:
+        pass
     os.listdir = p_listdir
     os.scandir = p_scandir
     os.kill = p_kill
@@ -766,6 +791,10 @@ def run_schedule(p):
         os.replace, os.rename, os.remove, os.unlink = real["replace"], real["rename"], real["remove"], real["unlink"]
         os.stat, os.lstat, os.fstat, os.fsync, os.getpid, os.link, os.chmod = real["stat"], real["lstat"], real["fstat"], real["fsync"], real["getpid"], real["link"], real["chmod"]
         os.listdir, os.scandir, os.kill = real["listdir"], real["scandir"], real["kill"]
+        if "flock" in real:
+            import fcntl
+
+            fcntl.flock, fcntl.lockf = real["flock"], real["lockf"]
     complete = {"ok": False, "why": "missing"}
     if data_after is not None:
         try:
@@ -787,7 +816,7 @@ def run_schedule(p):
     return {
         "quiescent": quiescent, "run": p["run"], "cfg": cfg, "trace": trace, "decisions": decisions, "results": results, "faulted": sorted(faulted),
         "tainted": sorted(disk.reads_mixed), "final_id": final_id, "complete": complete, "final_mixed": bool(ino_after and ino_after.mixed),
-        "disk_ops": disk.nops, "fired": sched.fired, "bypass": bypass or bool(extra_files), "extra_files": extra_files,
+        "disk_ops": disk.nops, "fired": sched.fired, "bypass": bypass or bool(extra_files) or bool(disk.unsupported), "unsupported": disk.unsupported, "extra_files": extra_files,
         "sim_files": sorted(sched._fname(os.path.basename(k)) for k in disk.paths),
         "trace_digest": hashlib.sha256(repr(trace).encode()).hexdigest()[:16],
     }
